@@ -506,9 +506,17 @@ theorem dropWaker_stage1 (hs : c.stage = 1) :
       let w2 := w1.modFut f fun s => { s with slot := false }
       let w3 ← w2.releaseLock (w.futs.getD f {}).slotMutex
       if (w1.futs.getD f {}).slot then
-        (w3.setStage 2).branch (w3.arcInfo (w.futs.getD f {}).arc).obj .arcDec
+        let w4 := w3.modCtl w3.tid fun c => { c with taken := (w.futs.getD f {}).arc }
+        (w4.setStage 2).branch (w4.arcInfo (w.futs.getD f {}).arc).obj .arcDec
       else pure (w3.complete .unit)) := by
   simp only [World.runOp, hs]
+
+theorem dropWaker_stage2 (hs : 2 ≤ c.stage) :
+    w.runOp c (.dropWaker f) = (do
+      let w1 ← w.wakerDrop c.taken
+      pure (w1.complete .unit)) := by
+  obtain ⟨n, hn⟩ : ∃ n, c.stage = n + 2 := ⟨c.stage - 2, by omega⟩
+  simp only [World.runOp, hn]
 
 theorem awTake_stage1 (hs : c.stage = 1) :
     w.runOp c (.awTake f) = (do
